@@ -100,9 +100,11 @@ def impl_driver(flavour="asan"):
         os.makedirs(d, exist_ok=True)
         flags = {"asan": "-O1 -g -fsanitize=address,undefined -fno-sanitize-recover=all -fno-omit-frame-pointer",
                  "tsan": "-O1 -g -fsanitize=thread",
+                 "msan": "-O1 -g -fsanitize=memory -fsanitize-memory-track-origins -fno-omit-frame-pointer",
                  "plain": "-O1 -g"}[flavour]
+        cc = "clang" if flavour == "msan" else "gcc"       # MemorySanitizer exists in clang only
         csrc = " ".join(sorted(glob.glob(os.path.join(REPO, "lib", "*.c"))))
-        cmd = "gcc %s -D_GNU_SOURCE -D_REENTRANT -D%s -w -Wl,--wrap=fopen -I%s/include -I%s/lib -o %s %s %s -lpthread" % (
+        cmd = cc + " %s -D_GNU_SOURCE -D_REENTRANT -D%s -w -Wl,--wrap=fopen -I%s/include -I%s/lib -o %s %s %s -lpthread" % (
             flags, GUARD, REPO, REPO, exe, drv, csrc)
         rc, out = sh(cmd, timeout=600)
         if rc != 0:
@@ -195,7 +197,7 @@ def run_model(scenarios):
             out[ci + j * n] = r
     return out
 
-SAN_RE = re.compile(r"(ERROR: AddressSanitizer: ([\w-]+)|runtime error: ([^\n]*)|ERROR: LeakSanitizer|ThreadSanitizer: ([\w -]+))")
+SAN_RE = re.compile(r"(ERROR: AddressSanitizer: ([\w-]+)|runtime error: ([^\n]*)|ERROR: LeakSanitizer|ThreadSanitizer: ([\w -]+)|WARNING: MemorySanitizer: ([\w-]+))")
 
 def san_verdict(stderr):
     m = SAN_RE.search(stderr)
@@ -207,6 +209,7 @@ def san_verdict(stderr):
     if m.group(2): return "asan:" + m.group(2) + where
     if m.group(3): return "ubsan:" + m.group(3)[:60] + where
     if m.group(4): return "tsan:" + m.group(4).strip() + where
+    if m.group(5): return "msan:" + m.group(5) + where
     return "leak" + where
 
 def run_impl_chunk(exe, scenarios, timeout_per=20.0, env_extra=None):
@@ -217,6 +220,7 @@ def run_impl_chunk(exe, scenarios, timeout_per=20.0, env_extra=None):
     env = dict(os.environ)
     env["ASAN_OPTIONS"] = "detect_leaks=1:abort_on_error=0:exitcode=99:allocator_may_return_null=1"
     env["UBSAN_OPTIONS"] = "print_stacktrace=1:exitcode=98"
+    env["MSAN_OPTIONS"] = "exitcode=97"
     env["LC_ALL"] = "C"
     if env_extra: env.update(env_extra)
     while i < len(scenarios):
